@@ -16,6 +16,7 @@ package props
 import (
 	"fmt"
 	"sync"
+	"sync/atomic"
 	"testing"
 	"time"
 
@@ -33,7 +34,7 @@ type c12ExpCase struct {
 	LeadMs  int        `json:"leadMs"` // the clients start this long before the instant
 }
 
-var c12ExpOps = []string{"getF1", "getF2", "getR1", "getDep", "search", "list", "event", "event", "getKeep", "addOther"}
+var c12ExpOps = []string{"getF1", "getF2", "getR1", "getDep", "search", "list", "event", "event", "getKeep", "addOther", "getF3", "getF3", "rewriteF3"}
 
 func genC12Exp(t *rapid.T) c12ExpCase {
 	var c c12ExpCase
@@ -102,6 +103,13 @@ func runC12Exp(c c12ExpCase) *vlib.Outcome {
 	if !must("AddRule keep", err) {
 		return o
 	}
+	const nx = 6
+	for k := 0; k < nx; k++ {
+		_, err = loc.AddFact(ctx0, fmt.Sprintf("x%d", k), core.Map{"v": "three", "expires": float64(E)})
+		if !must("AddFact x", err) {
+			return o
+		}
+	}
 	_, err = loc.AddFact(ctx0, "stay", core.Map{"v": "stay"})
 	if !must("AddFact stay", err) {
 		return o
@@ -132,6 +140,10 @@ func runC12Exp(c c12ExpCase) *vlib.Outcome {
 		o.Fail(kind, format, args...)
 		mu.Unlock()
 	}
+	// x0..x5 expire like the others but may be rewritten (without an
+	// expiry) by a client: from the moment such a write has returned, the
+	// item is there
+	var rewritten [nx]int64 // UnixNano of the first completed rewrite, 0 = none
 	var wg sync.WaitGroup
 	for ci, ops := range c.Clients {
 		wg.Add(1)
@@ -164,6 +176,27 @@ func runC12Exp(c c12ExpCase) *vlib.Outcome {
 						seenGet("f2", "two")
 					case "getDep":
 						seenGet("dep", "dep")
+					case "rewriteF3":
+						k := (n + ci) % nx
+						if _, err := loc.AddFact(locCtx(loc), fmt.Sprintf("x%d", k), core.Map{"v": "three2"}); err != nil {
+							fail("WRITE_ERROR", "client %d: rewriting x%d (without expiry) across its expiry failed with %v", ci, k, err)
+						} else {
+							atomic.CompareAndSwapInt64(&rewritten[k], 0, time.Now().UnixNano())
+						}
+					case "getF3":
+						for k := 0; k < nx; k++ {
+							since := atomic.LoadInt64(&rewritten[k])
+							f, err := loc.GetFact(locCtx(loc), fmt.Sprintf("x%d", k))
+							if err != nil {
+								if _, nf := err.(*core.NotFoundError); !nf {
+									fail("READ_ERROR", "client %d: GetFact(x%d) failed with %v", ci, k, err)
+								} else if since != 0 {
+									fail("ACKNOWLEDGED_WRITE_LOST", "client %d: x%d was rewritten without an expiry (the write had returned before this read began) but GetFact says not found", ci, k)
+								}
+							} else if since != 0 && fmt.Sprint(f["v"]) != "three2" {
+								fail("ACKNOWLEDGED_WRITE_LOST", "client %d: x%d was rewritten but GetFact returned v=%v", ci, k, f["v"])
+							}
+						}
 					case "getKeep":
 						if _, err := loc.GetFact(locCtx(loc), "stay"); err != nil {
 							fail("BYSTANDER_LOST", "client %d: the fact that never expires could not be read: %v", ci, err)
@@ -267,6 +300,21 @@ func runC12Exp(c c12ExpCase) *vlib.Outcome {
 				o.Fail("DEPENDENT_SURVIVED", "[%s] %q names an expired and purged item in deleteWith but is still there", c.Kind, id)
 				return o
 			}
+		}
+	}
+	for k := 0; k < nx; k++ {
+		id := fmt.Sprintf("x%d", k)
+		if atomic.LoadInt64(&rewritten[k]) != 0 {
+			o.Label("expiring-item-rewritten")
+			f, err := loc.GetFact(locCtx(loc), id)
+			js, stored := keys[id]
+			if err != nil || fmt.Sprint(f["v"]) != "three2" || !stored {
+				o.Fail("ACKNOWLEDGED_WRITE_LOST", "[%s] %s was rewritten without an expiry, but afterwards GetFact gives (%v, %v) and storage has %q (%v)", c.Kind, id, f, err, js, stored)
+				return o
+			}
+		} else if _, err := loc.GetFact(locCtx(loc), id); err == nil {
+			o.Fail("EXPIRED_VISIBLE", "[%s] %s is still returned after its expiry instant", c.Kind, id)
+			return o
 		}
 	}
 	for _, id := range []string{"stay", "keep"} {
